@@ -1460,6 +1460,19 @@ func vC14EmptyEmailProviders(t *testing.T, out *vEmitter) {
 				out.Obs("idp-fault/empty-email", true, vL("idp_fault", vS(pv.name+"-login"), vS("emails"), vS(label), vI(int64(cb.Status)), vBool(issued), vBool(cb.Hit())))
 				out.Stat("idp_fault_runs", 1)
 				out.Stat("empty_email_runs", 1)
+				{
+					// the e-mail the provider derives from this answer (the provider's selection rule is the oracle: a verified
+					// primary address / a primary address), against the model's admission rule
+					derived := ""
+					if label == "ok" {
+						derived = "user@example.com"
+					}
+					var ds []vsx
+					for _, d := range domains {
+						ds = append(ds, vS(d))
+					}
+					out.Case("login-admission/"+pv.name, label != "ok", vBool(issued), vL("login_admits", vL(ds...), vL(), vL(), vS(derived), vL()))
+				}
 				if cb.Panic != nil {
 					out.Violation("idp-fault/panic", fmt.Sprintf("request handling panicked on an identity-provider answer: %v", cb.Panic),
 						map[string]interface{}{"provider": pv.name, "kind": label})
